@@ -94,6 +94,7 @@ type HStep struct {
 	Fix    *Fix    `json:"fix,omitempty"`         // concrete fix-up (used as is)
 	Acts   []Act   `json:"acts,omitempty"`        // abstract fix-up, resolved by the worker against the table as it is at that step
 	Extra  int     `json:"extra_names,omitempty"` // with Acts: pass a names list = names in use + this many new names
+	Rename uint64  `json:"rename,omitempty"`      // with Acts: rename one label IN PLACE in the slice passed by an earlier fix-up and pass that same slice again (as demo/Demo.go does with NAMES)
 	BadKey *string `json:"bad_key,omitempty"`     // a malformed query whose panic is recovered
 	Why    string  `json:"why,omitempty"`
 }
